@@ -44,7 +44,8 @@ namespace Givaro {
                 r = Rational(num) ;
                 return in ;
             }
-            while ((ch==' ') && (in)) in.get(ch) ;
+            // stop at the end of the stream instead of failing on it ("3 " is the integer 3)
+            while ((ch==' ') && (in.peek() != std::char_traits<char>::eof())) in.get(ch) ;
             if (ch == '/') {
                 // We get denominator
                 in >> den ;
